@@ -2,9 +2,14 @@ package harness
 
 import (
 	"fmt"
+	"sort"
+	"strings"
 	"testing"
 
+	"github.com/opsidian/parsley/combinator"
 	"github.com/opsidian/parsley/data"
+	"github.com/opsidian/parsley/parser"
+	"github.com/opsidian/parsley/text/terminal"
 	"pgregory.net/rapid"
 )
 
@@ -15,9 +20,17 @@ type GCase struct {
 	MemoAll bool     `json:"memoAll"`          // also memoize the non-recursive rules
 	PreLen  int      `json:"preLen,omitempty"` // > 0: the parsed file follows a file of that length (used by C02)
 	Toks    *C10Case `json:"toks,omitempty"`   // C07 only: a literal token sequence instead of a grammar
+	// Long > 0 (C01 only): instead of a generated grammar, one of four left-recursive templates whose
+	// derivations are known in closed form, on an input with Long repetitions (recursion depths far
+	// beyond what the 62-byte reference can hold)
+	Long     int `json:"long,omitempty"`
+	LongKind int `json:"longKind,omitempty"`
 }
 
 func (c *GCase) Describe() string {
+	if c.Long > 0 {
+		return fmt.Sprintf("long template %d with %d repetitions", c.LongKind, c.Long)
+	}
 	if c.Toks != nil {
 		return "literal tokens: " + c.Toks.Describe()
 	}
@@ -81,8 +94,108 @@ func classifyGrammar(g *Grammar, st *Stats) lrClass {
 	return c
 }
 
+// checkC01Long: templates with known derivations on long inputs.
+//
+//	0: P -> P b | a            on a b^n        P@0 reaches 1, 2, ..., n+1
+//	1: L -> L , x | x          on x (, x)^n    L@0 reaches 1, 3, ..., 2n+1
+//	2: H -> c? H b | a         on a b^n        H@0 reaches 1, 2, ..., n+1
+//	3: A -> B b | a; B -> A    on a b^n        A@0 reaches 1, 2, ..., n+1
+//
+// and nothing from offset 1 (where no rule can start).
+func checkC01Long(c *GCase, st *Stats) error {
+	n := c.Long
+	if n > 400 || (c.LongKind == 2 && n > 120) {
+		return Discard{"long template: too long"}
+	}
+	r := terminal.Rune
+	var root parser.Func
+	var in string
+	var want []int
+	switch c.LongKind % 4 {
+	case 0:
+		root = combinator.Memoize(combinator.Any(combinator.SeqOf(&root, r('b')), r('a')))
+		in = "a" + strings.Repeat("b", n)
+		for e := 1; e <= n+1; e++ {
+			want = append(want, e)
+		}
+	case 1:
+		root = combinator.Memoize(combinator.Any(r('x'), combinator.SeqOf(&root, r(','), r('x'))))
+		in = "x" + strings.Repeat(",x", n)
+		for e := 1; e <= 2*n+1; e += 2 {
+			want = append(want, e)
+		}
+	case 2:
+		root = combinator.Memoize(combinator.Any(combinator.SeqOf(combinator.Optional(r('c')), &root, r('b')), r('a')))
+		in = "a" + strings.Repeat("b", n)
+		for e := 1; e <= n+1; e++ {
+			want = append(want, e)
+		}
+	default:
+		var b parser.Func
+		root = combinator.Memoize(combinator.Any(combinator.SeqOf(&b, r('b')), r('a')))
+		b = combinator.Memoize(&root)
+		in = "a" + strings.Repeat("b", n)
+		for e := 1; e <= n+1; e++ {
+			want = append(want, e)
+		}
+	}
+	ends := func(off int) (out []int, err error) {
+		defer func() {
+			if r := recover(); r != nil {
+				err = fmt.Errorf("panic: %v", r)
+			}
+		}()
+		ctx, f := NewCtx(in)
+		res, _, _ := root.Parse(ctx, data.EmptyIntMap, f.Pos(off))
+		seen := map[int]bool{}
+		for _, alt := range alternatives(res) {
+			if int(alt.Pos())-1 != off {
+				return nil, fmt.Errorf("a result of the rule asked at %d starts at %d", off, int(alt.Pos())-1)
+			}
+			seen[int(alt.ReaderPos())-1] = true
+		}
+		for e := range seen {
+			out = append(out, e)
+		}
+		sort.Ints(out)
+		return out, nil
+	}
+	got, err := ends(0)
+	if err != nil {
+		return err
+	}
+	if fmt.Sprint(got) != fmt.Sprint(want) {
+		miss := []int{}
+		have := map[int]bool{}
+		for _, e := range got {
+			have[e] = true
+		}
+		for _, e := range want {
+			if !have[e] && len(miss) < 8 {
+				miss = append(miss, e)
+			}
+		}
+		return fmt.Errorf("long template %d, %d repetitions (%d bytes): the rule reaches %d end offsets from 0, the grammar derives %d; first missing: %v", c.LongKind%4, n, len(in), len(got), len(want), miss)
+	}
+	if got1, err := ends(1); err != nil || len(got1) != 0 {
+		return fmt.Errorf("long template %d: asked at offset 1 the rule returns ends %v (error %v), it derives nothing there", c.LongKind%4, got1, err)
+	}
+	st.Class(fmt.Sprintf("long template %d", c.LongKind%4))
+	if n >= 64 {
+		st.Class("long template with recursion depth >= 64")
+		st.NonTrivial()
+	}
+	return nil
+}
+
 func checkC01(ci interface{}, st *Stats) error {
 	c := ci.(*GCase)
+	if c.Long > 0 {
+		return checkC01Long(c, st)
+	}
+	if c.G == nil {
+		return Discard{"no grammar"}
+	}
 	g, in := c.G, c.In
 	g.number()
 	lr := classifyGrammar(g, st)
@@ -95,6 +208,13 @@ func checkC01(ci interface{}, st *Stats) error {
 		st.Class("file placed after another file")
 	}
 	b := Build(g, BuildOpts{MemoRules: c.memoRules(), Probe: probe})
+	if len(in) >= 2 {
+		// the grammar value has a history: it parsed a shorter input (the first half) before
+		ctx0, f0, _ := NewCtxAt(in[:len(in)/2], 0)
+		if _, _, berr := parseGuarded(b.NT[0], ctx0, data.EmptyIntMap, f0.Pos(0)); berr != nil {
+			return fmt.Errorf("N0@0 on the first half of the input does not terminate within the re-entry bound: %v", berr)
+		}
+	}
 	type q struct {
 		got  TreeSet
 		ends bits
@@ -181,6 +301,13 @@ func init() {
 		ID:      "C01",
 		NewCase: func() interface{} { return &GCase{} },
 		Gen: func(t *rapid.T) interface{} {
+			if rapid.IntRange(0, 60).Draw(t, "long") == 31 {
+				n := rapid.IntRange(40, 100).Draw(t, "longN")
+				if rapid.IntRange(0, 3).Draw(t, "longer") == 0 {
+					n = rapid.IntRange(100, 300).Draw(t, "longN2")
+				}
+				return &GCase{Long: n, LongKind: rapid.IntRange(0, 3).Draw(t, "longKind")}
+			}
 			o := genOptsC01()
 			if rapid.IntRange(0, 4).Draw(t, "extramemo") == 0 {
 				o.ExtraMemo = 4
